@@ -1,6 +1,6 @@
 (* Trusted glue: parse one script per line (decimal integers, possibly negative,
    of any size), run the extracted model's run_script, print the trace as one
-   line of decimal integers. usage: driver <PROP> < scripts > traces *)
+   line of decimal integers. usage: driver < scripts > traces (one driver per model, see ocaml/build.sh) *)
 open BinNums
 
 let rec pos_of_int (n : int) : positive =
@@ -47,8 +47,7 @@ let split_ws (s : string) : string list =
   Stdlib.List.filter (fun x -> x <> "") (String.split_on_char ' ' (String.trim s))
 
 let () =
-  let prop = Sys.argv.(1) in
-  let run = Dispatch.lookup prop in
+  let run = Extract.run in
   (try
     while true do
       let line = input_line stdin in
